@@ -88,7 +88,6 @@ def _factors_of(p):
 
 class Sym:
     __slots__ = ('n', 'd', 'raw')
-    __array_priority__ = 1000
 
     def __init__(self, n, d=None):
         self.n = n
